@@ -551,6 +551,11 @@ func (c *zvCase) zvCallers(http bool) []zvCaller {
 	var out []zvCaller
 	seen := map[string]bool{}
 	add := func(class string, conn zvID, in ...zvID) {
+		if (conn.Form == "gw" || conn.Form == "gw-extra") && len(in) > 0 && in[0].TD == c.LocalTD && in[0].AP == "" {
+			// a gateway forwarding one of OUR OWN identities is not a defined path (gateways terminate
+			// TLS only for peered traffic): outside the universe
+			return
+		}
 		cl := zvCaller{Class: class, Conn: conn, In: in}
 		k := conn.render(zvSanSet{}) + "|" + strings.Join(cl.inURIs(zvSanSet{}), ",")
 		if seen[k] {
